@@ -399,6 +399,11 @@ func run(id, tier, replay string) int {
 				brokenRun = true
 				harnessErrors = append(harnessErrors, fmt.Sprintf("%s: child died without end line (%v), last case %s: %s", r.target, r.err, lastCase, tail(r.log, 60)))
 			}
+		} else if r.err != nil && strings.Contains(tail(r.log, 400), "race detected during execution of test") {
+			// the testing package fails a binary whose race detector reported anything; the
+			// reports themselves are turned into violations / known findings by collectRaces,
+			// and harness errors are reported through harness-error lines, so this is not an
+			// infrastructure failure.
 		} else if r.err != nil {
 			// test binary failed (t.Error) although it ended: harness assertion
 			brokenRun = true
